@@ -13,7 +13,7 @@ RULE = ("one group of k identical files (k=2..4 quick, 2..5 thorough) at differe
         "partition of the paths into hard-link sets, distinct (permuted) or tied timestamps; x every single priority "
         "(12) and ordered pairs of priorities x pattern sets {none, --name, --path, --keep-name, --keep-path, "
         "--name + --keep-name} x n in {unset,1,2,3} given as -n or --rf-over; inheritance cases where the settings come "
-        "only from the report header ({--isolate, -H, --isolate -H, --rf-over 2, --transform}; -H from the header with --isolate on the command line; --isolate on the command line with relative root spellings); isolate roots holding several files with different times: every assignment of time ranks to 4 (thorough: 5) files x every attribute priority, --isolate inherited or given to the dedupe command; observed = files named by the "
+        "only from the report header ({--isolate, -H, --isolate -H, --rf-over 2, --transform}; -H from the header with --isolate on the command line; --isolate on the command line with relative root spellings; relative roots in the header with the dedupe command started from another directory, also after `group --base-dir`); isolate roots holding several files with different times: every assignment of time ranks to 4 (thorough: 5) files x every attribute priority, --isolate inherited or given to the dedupe command; observed = files named by the "
         "--dry-run script (and, for a sample, the effect of a real run); oracle = reference selection written from the "
         "statement. Non-trivial = reference drops at least one file; distinct by (structure, times, options).")
 ASSUMPTIONS = ["a sub-group of several files (isolate root) is ranked by the aggregate that the accessors of FileSubGroup "
@@ -86,7 +86,7 @@ def cases(tier, seed):
                 pl = prio_lists[idx % len(prio_lists)]
                 out.append({"k": k, "rgs": rgs, "prio": pl, "pat": pat[0], "pat_args": pat[1], "n": n, "tied": False,
                             "inherit": None, "real": idx % 6 == 0, "op": OPS4[(idx // 6 + idx) % 4]})
-        for inh in ("isolate", "match_links", "rf2", "transform", "isolate_dot", "isolate_H", "isolate_cli_H", "isolate_cli_rel"):
+        for inh in ("isolate", "match_links", "rf2", "transform", "isolate_dot", "isolate_H", "isolate_cli_H", "isolate_cli_rel", "isolate_other_cwd", "isolate_basedir"):
             for pl in ([], ["top"], ["most-nested"], ["bottom", "least-nested"]):
                 idx += 1
                 out.append({"k": k, "rgs": rgs, "prio": pl, "pat": "none", "pat_args": [], "n": None, "tied": False,
@@ -269,7 +269,23 @@ def evaluate(case):
         roots = ["r1", "r1x"]
         opts = {}
         inh = case["inherit"]
-        if inh == "isolate_H":
+        run_cwd = None
+        gcwd = None
+        if inh == "isolate_other_cwd":
+            # roots relative in the header; the dedupe command is started from another directory
+            gargs.append("--isolate")
+            opts["isolate_roots"] = [sc.path("r1").decode(), sc.path("r1x").decode()]
+            run_cwd = os.path.join(sc.root, "elsewhere")
+            os.makedirs(run_cwd, exist_ok=True)
+        elif inh == "isolate_basedir":
+            # `group --base-dir TREE --isolate r1 r1x` started from elsewhere; the dedupe command started from a third place
+            gargs += ["--isolate", "--base-dir", sc.tree]
+            opts["isolate_roots"] = [sc.path("r1").decode(), sc.path("r1x").decode()]
+            gcwd = os.path.join(sc.root, "elsewhere")
+            run_cwd = os.path.join(sc.root, "third")
+            os.makedirs(gcwd, exist_ok=True)
+            os.makedirs(run_cwd, exist_ok=True)
+        elif inh == "isolate_H":
             # both settings come from the report header
             gargs += ["--isolate", "-H"]
             opts["isolate_roots"] = [sc.path("r1").decode(), sc.path("r1x").decode()]
@@ -298,7 +314,7 @@ def evaluate(case):
             opts["n"] = 2
         elif inh == "transform":
             gargs += G.transform_args("shrink", "pipe")
-        report = D.make_report(sc, gargs, roots, fmt="json" if (case["k"] + len(case["prio"])) % 2 else "default")
+        report = D.make_report(sc, gargs, roots, fmt="json" if (case["k"] + len(case["prio"])) % 2 else "default", cwd=gcwd)
         rep = D.report_groups(report)
         if not rep.groups:
             # nothing to dedupe (e.g. all paths are hard links of one file, or isolate found one root only)
@@ -322,7 +338,7 @@ def evaluate(case):
         feat["subgroup_attribute_aggregated"] = opts.get("aggregated", False)
         op = case["op"]
         target = os.path.join(sc.root, "moved") if op == "move" else None
-        r = D.run_dedupe(sc, op, dargs, report, dry_run=True, target=target)
+        r = D.run_dedupe(sc, op, dargs, report, dry_run=True, target=target, cwd=run_cwd)
         if r["rc"] != 0 or r["timeout"]:
             kind = "panic" if "panicked" in r["err"] else "error_exit"
             viol.append(dict(feat, kind=kind, detail="%s %s --dry-run: rc=%s %s" % (op, dargs, r["rc"], r["err"][-300:])))
@@ -345,7 +361,7 @@ def evaluate(case):
                     op, o["file"], o["target"])))
         if case["real"] and got_drop == exp_drop:
             before = C.inventory(sc.tree)
-            r1x = D.run_dedupe(sc, op, dargs, report, dry_run=False, target=target)
+            r1x = D.run_dedupe(sc, op, dargs, report, dry_run=False, target=target, cwd=run_cwd)
             after = C.inventory(sc.tree)
             if r1x["rc"] != 0:
                 viol.append(dict(feat, kind="real_run_failed", detail="%s %s rc=%s %s" % (op, dargs, r1x["rc"], r1x["err"][-300:])))
